@@ -7,7 +7,7 @@
    held (vm_runs_z: ScopeEnds). *)
 From Coq Require Import String Ascii.
 From Coq Require Import ZArith List Bool Lia.
-From SqfVerif Require Import Gen.DiagCodes Gen.Overloads VM.VmDefs VM.VmExec VM.RefSem VM.C02Proofs VM.SimDefs VM.SimProofs VM.SimBlock VM.SimCtl VM.SimThrowOps.
+From SqfVerif Require Import Gen.DiagCodes Gen.Overloads VM.VmDefs VM.VmExec VM.RefSem VM.C02Proofs VM.SimDefs VM.SimProofs VM.SimBlock VM.SimCtl VM.SimThrowOps VM.SimBreakOps.
 Import ListNotations.
 Local Open Scope string_scope.
 Local Open Scope list_scope.
@@ -82,6 +82,11 @@ Definition declare (s:sstate) (x:string) : sstate :=
   match st_scopes s with
   | sc :: _ => match assoc (lower x) (sc_vars sc) with Some _ => s | None => bind_here s x RNil end
   | [] => s end.
+
+(* scope names: the name of the innermost scope, and the innermost scope that carries a given name (counted from the top) *)
+Definition top_name (s:sstate) : string := match st_scopes s with sc :: _ => sc_name sc | [] => "" end.
+Fixpoint find_name (t:string) (l:list scope) (k:nat) : option nat :=
+  match l with [] => None | sc :: r => if String.eqb (sc_name sc) t then Some k else find_name t r (S k) end.
 
 (* the first instruction of a (non-empty) block is a plain push or a variable read: true of every block whose first
    statement does not start with a nular operator; the step that takes a loop round again executes it *)
@@ -159,6 +164,17 @@ Inductive zev : sstate -> expr -> rvalue -> sstate -> Prop :=
 | ZCatchThrow s n a b body h s1 s2 x s3 out s4 : lower n = "catch" -> zev s a (RTry body) s1 -> zev s1 b (RCode h) s2 ->
     zthrow (enter s2 []) RNil body x s3 -> zblock (set_top_vars s3 [("_exception", x)]) RNil h out s4 ->
     zev s (EBinary n a b) (val_of out) (pop_scope s4)
+(* scopeName / breakOut: a scope gets its name once; a block left by breakOut "t" (relation zbreak below) ends every scope up to and
+   including the innermost one named t, and the construct that opened that scope yields the value handed to breakOut *)
+| ZScopeName s n a t s1 sc scs : lower n = "scopename" -> (forall k, a <> ENum k) -> zev s a (RStr t) s1 ->
+    st_scopes s1 = sc :: scs -> sc_name sc = "" ->
+    zev s (EUnary n a) RNil (with_scopes s1 ({| sc_vars := sc_vars sc; sc_ns := sc_ns sc; sc_name := t |} :: scs))
+| ZCallBreak s n a b s1 t v s2 : lower n = "call" -> (forall k, a <> ENum k) -> zev s a (RCode b) s1 ->
+    zbreak (enter s1 [("_this", this_of s1)]) RNil b t v s2 -> top_name s2 = t -> zev s (EUnary n a) v (pop_scope s2)
+| ZThenBreak s n a b blk s1 s2 t v s3 : lower n = "then" -> zev s a (RIf true) s1 -> zev s1 b (RCode blk) s2 ->
+    zbreak (enter s2 []) RNil blk t v s3 -> top_name s3 = t -> zev s (EBinary n a b) v (pop_scope s3)
+| ZThenElseBreak s n a b c x0 y0 s1 s2 t v s3 : lower n = "then" -> zev s a (RIf c) s1 -> zev s1 b (RArr [RCode x0; RCode y0]) s2 ->
+    zbreak (enter s2 []) RNil (if c then x0 else y0) t v s3 -> top_name s3 = t -> zev s (EBinary n a b) v (pop_scope s3)
 with zevs : sstate -> list expr -> list rvalue -> sstate -> Prop :=
 | ZNil s : zevs s [] [] s
 | ZCons s e v s1 l vs s2 : zev s e v s1 -> nonnil v -> zevs s1 l vs s2 -> zevs s (e :: l) (v :: vs) s2
@@ -231,7 +247,23 @@ with zthrow : sstate -> rvalue -> list stmt -> rvalue -> sstate -> Prop :=
     zthrow (enter s2 []) RNil (if c then x0 else y0) x s3 -> zthrow s reg (SExpr (EBinary n a b) :: rest) x (pop_scope s3)
 | ZTHandler s reg n a b body h s1 s2 x s3 y s4 rest : lower n = "catch" -> zev s a (RTry body) s1 -> zev s1 b (RCode h) s2 ->
     zthrow (enter s2 []) RNil body x s3 -> zthrow (set_top_vars s3 [("_exception", x)]) RNil h y s4 ->
-    zthrow s reg (SExpr (EBinary n a b) :: rest) y (pop_scope s4).
+    zthrow s reg (SExpr (EBinary n a b) :: rest) y (pop_scope s4)
+(* a block that is left by breakOut to the scope named t, with value v (nil for the unary form): statements that run normally, then
+   `breakOut "t"`, `v breakOut "t"`, or a scope construct standing as a statement - call, if-then(-else) - whose own scope is not
+   named t and whose block is left that way; the state is the one at the breakOut, the scopes in between closed *)
+with zbreak : sstate -> rvalue -> list stmt -> string -> rvalue -> sstate -> Prop :=
+| ZKCons s reg st reg1 s1 st2 rest t v s' : zstmt s reg st reg1 s1 -> zbreak s1 RNone (st2 :: rest) t v s' -> zbreak s reg (st :: st2 :: rest) t v s'
+| ZKBreak s reg n e t s1 rest : lower n = "breakout" -> (forall k, e <> ENum k) -> zev s e (RStr t) s1 -> t <> "" ->
+    zbreak s reg (SExpr (EUnary n e) :: rest) t RNil s1
+| ZKBreakV s reg n a b v t s1 s2 rest : lower n = "breakout" -> zev s a v s1 -> nonnil v -> zev s1 b (RStr t) s2 -> t <> "" ->
+    zbreak s reg (SExpr (EBinary n a b) :: rest) t v s2
+| ZKCallU s reg n a b s1 t v s2 rest : lower n = "call" -> (forall k, a <> ENum k) -> zev s a (RCode b) s1 ->
+    zbreak (enter s1 [("_this", this_of s1)]) RNil b t v s2 -> top_name s2 <> t -> zbreak s reg (SExpr (EUnary n a) :: rest) t v (pop_scope s2)
+| ZKThen s reg n a b blk s1 s2 t v s3 rest : lower n = "then" -> zev s a (RIf true) s1 -> zev s1 b (RCode blk) s2 ->
+    zbreak (enter s2 []) RNil blk t v s3 -> top_name s3 <> t -> zbreak s reg (SExpr (EBinary n a b) :: rest) t v (pop_scope s3)
+| ZKThenElse s reg n a b c x0 y0 s1 s2 t v s3 rest : lower n = "then" -> zev s a (RIf c) s1 -> zev s1 b (RArr [RCode x0; RCode y0]) s2 ->
+    zbreak (enter s2 []) RNil (if c then x0 else y0) t v s3 -> top_name s3 <> t ->
+    zbreak s reg (SExpr (EBinary n a b) :: rest) t v (pop_scope s3).
 
 Scheme zev_i := Induction for zev Sort Prop
   with zevs_i := Induction for zevs Sort Prop
@@ -240,8 +272,12 @@ Scheme zev_i := Induction for zev Sort Prop
   with ziter_i := Induction for ziter Sort Prop
   with zfor_i := Induction for zfor Sort Prop
   with zwhile_i := Induction for zwhile Sort Prop
-  with zthrow_i := Induction for zthrow Sort Prop.
-Combined Scheme z_ind from zev_i, zevs_i, zstmt_i, zblock_i, ziter_i, zfor_i, zwhile_i, zthrow_i.
+  with zthrow_i := Induction for zthrow Sort Prop
+  with zbreak_i := Induction for zbreak Sort Prop.
+Combined Scheme z_ind from zev_i, zevs_i, zstmt_i, zblock_i, ziter_i, zfor_i, zwhile_i, zthrow_i, zbreak_i.
+
+Lemma zbreak_facts s reg b t v s' : zbreak s reg b t v s' -> t <> "" /\ v <> RNone.
+Proof. induction 1; try assumption; split; try assumption; try discriminate. match goal with H : nonnil _ |- _ => exact (proj2 H) end. Qed.
 
 Lemma zblock_val s reg b out s' : zblock s reg b out s' -> val_of out <> RNone.
 Proof. induction 1; cbn [val_of]; try assumption; match goal with |- res_of ?r <> _ => destruct r; discriminate end. Qed.
@@ -279,6 +315,7 @@ Proof.
   destruct 1; try discriminate;
     try (match goal with H : zwhile _ _ _ _ _ _ |- _ => exact (zwhile_val _ _ _ _ _ _ H) end);
     try (match goal with H : ?v <> RNone |- ?v <> RNone => exact H end);
+    try (match goal with H : zbreak _ _ _ _ _ _ |- _ => exact (proj2 (zbreak_facts _ _ _ _ _ _ H)) end);
     try (match goal with H : nonnil _ |- _ => exact (proj2 H) end);
     try (match goal with H : zblock _ _ _ _ _ |- _ => exact (zblock_val _ _ _ _ _ H) end);
     try (match goal with H : ziter ?k _ _ _ _ _ _ _ |- _ => apply (ziter_val _ _ _ _ _ _ _ _ H); destruct k; discriminate end);
@@ -1001,6 +1038,8 @@ Qed.
 
 (* ---------------------------------------------------------------- throw: where the machine stands when a handler has taken over *)
 Definition drop_scopes (k:nat) (s:sstate) : sstate := with_scopes s (skipn k (st_scopes s)).
+Lemma drop_scopes_0 s : drop_scopes 0 s = s.
+Proof. destruct s; reflexivity. Qed.
 Lemma drop_scopes_S k s : drop_scopes (S k) s = drop_scopes k (pop_scope s).
 Proof. unfold drop_scopes, pop_scope, with_scopes. cbn [st_scopes st_nss st_trace]. destruct (st_scopes s); [rewrite !skipn_nil; reflexivity|reflexivity]. Qed.
 
@@ -1019,8 +1058,8 @@ Definition ThrowRuns (s:sstate) (reg:rvalue) (code:list instr) (x:rvalue) (s':ss
     f_code f = pre ++ code -> f_pos f = length pre ->
     f :: restf = inner ++ ft :: rest -> Forall (fun m => f_err m = None) inner -> f_err ft = Some (ECatch h) ->
     below = jn ++ below_t -> under jn -> length below_t = f_base ft ->
-    exists r' c' rest', Steps r r' /\ Forall2 kept rest rest' /\
-      Caught (set_top_vars (drop_scopes (length inner) s') [("_exception", x)]) r' c' (handler_frame ft h (cv x)) rest' below_t.
+    exists r' c' rest' ft0, Steps r r' /\ Forall2 kept rest rest' /\ moved ft ft0 /\
+      Caught (set_top_vars (drop_scopes (length inner) s') [("_exception", x)]) r' c' (handler_frame ft0 h (cv x)) rest' below_t.
 
 Lemma moved_err f f' : moved f f' -> f_err f' = f_err f. Proof. intros H. rewrite <- H. reflexivity. Qed.
 Lemma kept_err f f' : kept f f' -> f_err f' = f_err f. Proof. intros H. rewrite <- H. reflexivity. Qed.
@@ -1028,21 +1067,21 @@ Lemma kept_all_err l l' : Forall2 kept l l' -> Forall (fun m => f_err m = None) 
 Proof. induction 1 as [|a b l l' K _ IH]; intros HF; [constructor|]. inversion HF; subst. constructor; [rewrite (kept_err _ _ K); assumption|apply IH; assumption]. Qed.
 
 (* the chain of frames down to the handler's, after the running frame has moved on and the others have kept their shape *)
-Lemma chain_kept f restf inner ft rest f1 rest1 h x :
+Lemma chain_kept f restf inner ft rest f1 rest1 h (x:value) :
   f :: restf = inner ++ ft :: rest -> Forall (fun m => f_err m = None) inner -> f_err ft = Some (ECatch h) ->
   moved f f1 -> Forall2 kept restf rest1 ->
   exists inner1 ft1 rest1', f1 :: rest1 = inner1 ++ ft1 :: rest1' /\ Forall (fun m => f_err m = None) inner1 /\
-    f_err ft1 = Some (ECatch h) /\ handler_frame ft1 h x = handler_frame ft h x /\ length inner1 = length inner /\
+    f_err ft1 = Some (ECatch h) /\ moved ft ft1 /\ length inner1 = length inner /\
     Forall2 kept rest rest1' /\ f_base ft1 = f_base ft.
 Proof.
   intros CH HF HE MV K. destruct inner as [|m inner0]; cbn [app] in CH.
   - inversion CH; subst. exists [], f1, rest1. split; [reflexivity|]. split; [constructor|]. split; [rewrite (moved_err _ _ MV); exact HE|].
-    split; [apply handler_frame_moved; exact MV|]. split; [reflexivity|]. split; [exact K|apply (moved_base _ _ MV)].
+    split; [exact MV|]. split; [reflexivity|]. split; [exact K|apply (moved_base _ _ MV)].
   - inversion CH; subst. inversion HF as [|? ? HM HF0]; subst.
     destruct (Forall2_app_inv_l _ _ K) as (i1 & l2 & K1 & K2 & ->).
     inversion K2 as [|? ft1 ? r1' Kt Kr]; subst.
     exists (f1 :: i1), ft1, r1'. split; [reflexivity|]. split; [constructor; [rewrite (moved_err _ _ MV); exact HM|exact (kept_all_err _ _ K1 HF0)]|].
-    split; [rewrite (kept_err _ _ Kt); exact HE|]. split; [apply handler_frame_kept; exact Kt|].
+    split; [rewrite (kept_err _ _ Kt); exact HE|]. split; [apply kept_moved; exact Kt|].
     split; [cbn; rewrite (forall2_length _ _ _ K1); reflexivity|]. split; [exact Kr|apply (kept_base _ _ Kt)].
 Qed.
 
@@ -1086,15 +1125,15 @@ Lemma throw_in_scope s vars b x s3 r1 c0 fc restf inner ft rest h jn below_t :
   Good r1 c1 -> quirks r1 = ([], 0) -> c_frames c0 = fc :: restf -> Match s r1 (fc :: restf) ->
   fc :: restf = inner ++ ft :: rest -> Forall (fun m => f_err m = None) inner -> f_err ft = Some (ECatch h) ->
   c_values c0 = jn ++ below_t -> under jn -> length below_t = f_base ft ->
-  exists r' c' rest', Steps r1 r' /\ Forall2 kept rest rest' /\
-    Caught (set_top_vars (drop_scopes (length inner) (pop_scope s3)) [("_exception", x)]) r' c' (handler_frame ft h (cv x)) rest' below_t.
+  exists r' c' rest' ft0, Steps r1 r' /\ Forall2 kept rest rest' /\ moved ft ft0 /\
+    Caught (set_top_vars (drop_scopes (length inner) (pop_scope s3)) [("_exception", x)]) r' c' (handler_frame ft0 h (cv x)) rest' below_t.
 Proof.
   intros TR newf c1 G D EF M CH HF HE EV UJ LBT.
   pose proof (enter_at s vars (compile_block b) None r1 c0 fc restf G D EF M) as A.
   destruct (TR r1 c1 (set_base newf (length (c_values c0))) (fc :: restf) (c_values c0) [] (set_base newf (length (c_values c0)) :: inner) ft rest h jn below_t
-              A (fresh_one c1 (c_values c0) eq_refl) eq_refl eq_refl) as (r' & c' & rest' & S & K & CA).
+              A (fresh_one c1 (c_values c0) eq_refl) eq_refl eq_refl) as (r' & c' & rest' & ft0 & S & K & MT & CA).
   { cbn [app]. rewrite CH. reflexivity. } { constructor; [reflexivity|exact HF]. } { exact HE. } { exact EV. } { exact UJ. } { exact LBT. }
-  exists r', c', rest'. split; [exact S|]. split; [exact K|]. cbn [length] in CA. rewrite drop_scopes_S in CA. exact CA.
+  exists r', c', rest', ft0. split; [exact S|]. split; [exact K|]. split; [exact MT|]. cbn [length] in CA. rewrite drop_scopes_S in CA. exact CA.
 Qed.
 
 (* a throw out of the block of try {..} catch {..}: the try frame itself takes it *)
@@ -1103,15 +1142,15 @@ Lemma throw_in_try s b x s3 r1 c0 fc restf h :
   let newf := mk_frame (cur_ns c0) (compile_block b) None (Some (ECatch h)) (mvars []) in
   let c1 := push_value (push_frame c0 newf) VNil in
   Good r1 c1 -> quirks r1 = ([], 0) -> c_frames c0 = fc :: restf -> Match s r1 (fc :: restf) ->
-  exists r' c' rest', Steps r1 r' /\ Forall2 kept (fc :: restf) rest' /\
-    Caught (set_top_vars s3 [("_exception", x)]) r' c' (handler_frame (set_base newf (length (c_values c0))) h (cv x)) rest' (c_values c0).
+  exists r' c' rest' ft0, Steps r1 r' /\ Forall2 kept (fc :: restf) rest' /\ moved (set_base newf (length (c_values c0))) ft0 /\
+    Caught (set_top_vars s3 [("_exception", x)]) r' c' (handler_frame ft0 h (cv x)) rest' (c_values c0).
 Proof.
   intros TR newf c1 G D EF M.
   pose proof (enter_at s [] (compile_block b) (Some (ECatch h)) r1 c0 fc restf G D EF M) as A.
   destruct (TR r1 c1 (set_base newf (length (c_values c0))) (fc :: restf) (c_values c0) [] [] (set_base newf (length (c_values c0))) (fc :: restf) h [] (c_values c0)
-              A (fresh_one c1 (c_values c0) eq_refl) eq_refl eq_refl eq_refl) as (r' & c' & rest' & S & K & CA).
+              A (fresh_one c1 (c_values c0) eq_refl) eq_refl eq_refl eq_refl) as (r' & c' & rest' & ft0 & S & K & MT & CA).
   { constructor. } { reflexivity. } { reflexivity. } { constructor. } { reflexivity. }
-  exists r', c', rest'. split; [exact S|]. split; [exact K|].
+  exists r', c', rest', ft0. split; [exact S|]. split; [exact K|]. split; [exact MT|].
   cbn [length] in CA. unfold drop_scopes in CA. cbn [skipn] in CA.
   replace (with_scopes s3 (st_scopes s3)) with s3 in CA by (destruct s3; reflexivity). exact CA.
 Qed.
@@ -1140,6 +1179,113 @@ Proof.
   exact (SE r1 c1 (set_base newf (length (c_values c0))) fc rest (c_values c0) [] A (fresh_one c1 (c_values c0) eq_refl) eq_refl eq_refl eq_refl B).
 Qed.
 
+(* ---------------------------------------------------------------- breakOut: where the machine stands when the named scope has been left *)
+(* a block in frame f that is left by breakOut "t": the innermost scope named t (judged on the reference state at the breakOut, which
+   the frames Match) is k scopes up, its frame is fn, fc is the frame below it; the frames' bases do not grow towards the bottom of
+   the stack; the machine ends in fc with the value on what lay below fn's base *)
+Definition BreakRuns (s:sstate) (reg:rvalue) (code:list instr) (t:string) (v:rvalue) (s':sstate) : Prop :=
+  forall r c f restf below pre k top fn fc rest jn below_n,
+    AtM s reg r c f restf below -> Fresh c below ->
+    f_code f = pre ++ code -> f_pos f = length pre ->
+    find_name t (st_scopes s') 0 = Some k ->
+    f :: restf = top ++ fn :: fc :: rest -> length top = k ->
+    Forall (fun m => f_base fn <= f_base m) top -> f_base fc <= f_base fn ->
+    below = jn ++ below_n -> length below_n = f_base fn ->
+    exists r' c' fc' rest', Steps r r' /\ Mach (drop_scopes (S k) s') r' c' fc' rest' /\ c_values c' = cv v :: below_n /\
+      kept fc fc' /\ Forall2 kept rest rest'.
+
+Lemma find_name_shift t : forall l k0 k, find_name t l k0 = Some k -> find_name t l (S k0) = Some (S k).
+Proof. induction l as [|sc l IH]; intros k0 k H; cbn [find_name] in *; [discriminate|]. destruct (String.eqb (sc_name sc) t); [inversion H; reflexivity|apply IH; exact H]. Qed.
+Lemma find_name_pop t s k : top_name s <> t -> find_name t (st_scopes (pop_scope s)) 0 = Some k -> find_name t (st_scopes s) 0 = Some (S k).
+Proof.
+  unfold top_name, pop_scope. cbn [st_scopes with_scopes]. destruct (st_scopes s) as [|sc l]; cbn [tl find_name]; intros N H; [discriminate H|].
+  destruct (String.eqb_spec (sc_name sc) t) as [E|_]; [contradiction|]. apply find_name_shift. exact H.
+Qed.
+Lemma find_name_top t s : t <> "" -> top_name s = t -> find_name t (st_scopes s) 0 = Some 0.
+Proof.
+  unfold top_name. destruct (st_scopes s) as [|sc l]; intros N H; [exfalso; apply N; symmetry; exact H|].
+  cbn [find_name]. rewrite H, String.eqb_refl. reflexivity.
+Qed.
+Lemma find_name_ge t : forall scl a b, find_name t scl a = Some b -> a <= b.
+Proof. induction scl as [|sx scl IHl]; intros a b HH; cbn [find_name] in HH; [discriminate HH|]. destruct (String.eqb (sc_name sx) t); [inversion HH; lia|apply IHl in HH; lia]. Qed.
+(* ... and what that says about the frames *)
+Lemma find_name_frames t : forall scs fs k0 top fn more, Forall2 frame_match scs fs -> find_name t scs k0 = Some (k0 + length top) ->
+  fs = top ++ fn :: more -> Forall (fun m => f_scope m <> t) top /\ f_scope fn = t.
+Proof.
+  induction scs as [|sc scs IH]; intros fs k0 top fn more F H E; [discriminate H|].
+  inversion F as [|? f0 ? fs0 (V & NS & BB & SN) F' E1 E2]. subst fs. cbn [find_name] in H.
+  destruct (String.eqb_spec (sc_name sc) t) as [EN|NN].
+  - inversion H as [HK]. destruct top as [|m top]; [|cbn in HK; lia]. cbn in E2. inversion E2; subst.
+    split; [constructor|]. rewrite SN. reflexivity.
+  - destruct top as [|m top].
+    + exfalso. cbn in H. rewrite Nat.add_0_r in H.
+      apply find_name_ge in H. lia.
+    + cbn in E2. inversion E2; subst. destruct (IH (top ++ fn :: more) (S k0) top fn more F') as [A B]; [|reflexivity|].
+      * rewrite H. f_equal. cbn. lia.
+      * split; [constructor; [rewrite SN; exact NN|exact A]|exact B].
+Qed.
+
+(* the chain of frames down to the one below the named scope, after the running frame has moved on *)
+Lemma chain_kept_b f restf top fn fc rest f1 rest1 :
+  f :: restf = top ++ fn :: fc :: rest -> moved f f1 -> Forall2 kept restf rest1 -> Forall (fun m => f_base fn <= f_base m) top ->
+  exists top1 fn1 fc1 rest1', f1 :: rest1 = top1 ++ fn1 :: fc1 :: rest1' /\ length top1 = length top /\
+    Forall (fun m => f_base fn1 <= f_base m) top1 /\ f_base fn1 = f_base fn /\ kept fc fc1 /\ Forall2 kept rest rest1'.
+Proof.
+  intros CH MV K HB. destruct top as [|m top0]; cbn [app] in CH.
+  - inversion CH; subst. inversion K as [|? fc1 ? r1' Kc Kr]; subst.
+    exists [], f1, fc1, r1'. split; [reflexivity|]. split; [reflexivity|]. split; [constructor|]. split; [apply (moved_base _ _ MV)|]. split; assumption.
+  - inversion CH; subst. inversion HB as [|? ? HBm HB0]; subst.
+    destruct (Forall2_app_inv_l _ _ K) as (i1 & l2 & K1 & K2 & ->).
+    inversion K2 as [|? fn1 ? l3 Kn K3]; subst. inversion K3 as [|? fc1 ? r1' Kc Kr]; subst.
+    exists (f1 :: i1), fn1, fc1, r1'. split; [reflexivity|]. split; [cbn; rewrite (forall2_length _ _ _ K1); reflexivity|].
+    split; [|split; [apply (kept_base _ _ Kn)|split; assumption]].
+    constructor; [rewrite (kept_base _ _ Kn), (moved_base _ _ MV); exact HBm|].
+    clear - K1 HB0 Kn. induction K1 as [|a b l l' Kab _ IH]; [constructor|]. inversion HB0; subst.
+    constructor; [rewrite (kept_base _ _ Kn), (kept_base _ _ Kab); assumption|apply IH; assumption].
+Qed.
+
+Lemma match_after_break s r top1 fn1 more :
+  Match s r (top1 ++ fn1 :: more) -> Match (drop_scopes (S (length top1)) s) r more.
+Proof.
+  intros [F N]. destruct (Forall2_app_inv_r _ _ F) as (l1 & l2 & F1 & F2 & E).
+  inversion F2 as [|sct ? l2' ? _ F2' E1 E2]; subst.
+  assert (L : length top1 = length l1) by (apply (forall2_length _ _ _ F1)).
+  unfold drop_scopes, with_scopes. cbn [st_scopes st_nss st_trace]. split; [|exact N]. cbn [st_scopes].
+  rewrite E, L. replace (S (length l1)) with (1 + length l1) by lia. rewrite <- skipn_skipn_add, skipn_app_here. cbn [skipn]. exact F2'.
+Qed.
+
+(* a throw / breakOut out of the block of a plain scope that stands as a statement: the scope's own frame joins the chain *)
+Lemma break_in_scope s vars b t v s3 r1 c0 fcur restf k top fn fc rest jn below_n :
+  BreakRuns (enter s vars) RNil (compile_block b) t v s3 ->
+  let newf := mk_frame (cur_ns c0) (compile_block b) None None (mvars vars) in
+  let c1 := push_value (push_frame c0 newf) VNil in
+  Good r1 c1 -> quirks r1 = ([], 0) -> c_frames c0 = fcur :: restf -> Match s r1 (fcur :: restf) -> f_base fcur <= length (c_values c0) ->
+  top_name s3 <> t -> find_name t (st_scopes (pop_scope s3)) 0 = Some k ->
+  fcur :: restf = top ++ fn :: fc :: rest -> length top = k ->
+  Forall (fun m => f_base fn <= f_base m) top -> f_base fc <= f_base fn ->
+  c_values c0 = jn ++ below_n -> length below_n = f_base fn ->
+  exists r' c' fc' rest', Steps r1 r' /\ Mach (drop_scopes (S k) (pop_scope s3)) r' c' fc' rest' /\ c_values c' = cv v :: below_n /\
+    kept fc fc' /\ Forall2 kept rest rest'.
+Proof.
+  intros BR newf c1 G D EF M B NT FN CH LT HB HC EV LBN.
+  pose proof (enter_at s vars (compile_block b) None r1 c0 fcur restf G D EF M) as A.
+  destruct (BR r1 c1 (set_base newf (length (c_values c0))) (fcur :: restf) (c_values c0) [] (S k) (set_base newf (length (c_values c0)) :: top) fn fc rest jn below_n
+              A (fresh_one c1 (c_values c0) eq_refl) eq_refl eq_refl) as (r' & c' & fc' & rest' & S & MA & EV' & K & KR).
+  { apply find_name_pop; assumption. } { cbn [app]. rewrite CH. reflexivity. } { cbn. rewrite LT. reflexivity. }
+  { constructor; [cbn; rewrite EV, app_length; lia|exact HB]. } { exact HC. } { exact EV. } { exact LBN. }
+  exists r', c', fc', rest'. split; [exact S|]. split; [rewrite <- drop_scopes_S; exact MA|]. split; [exact EV'|]. split; assumption.
+Qed.
+
+(* scopeName "t": the frame gets the name the scope gets *)
+Lemma match_name s r c f rest t sc scs : c_frames c = f :: rest -> Match s r (f :: rest) -> st_scopes s = sc :: scs -> sc_name sc = "" ->
+  f_scope f = "" /\
+  Match (with_scopes s ({| sc_vars := sc_vars sc; sc_ns := sc_ns sc; sc_name := t |} :: scs)) r (set_scope f t :: rest).
+Proof.
+  intros EF [F N] ES EN. rewrite ES in F. inversion F as [|? ? ? ? (V & NS & BB & SN) F' E1 E2]; subst.
+  split; [rewrite SN; exact EN|]. split; [|exact N]. cbn [st_scopes with_scopes]. constructor; [|exact F'].
+  split; [exact V|split; [exact NS|split; [exact BB|reflexivity]]].
+Qed.
+
 Theorem vm_runs_z :
   (forall s e v s', zev s e v s' -> forall r c f rest pre post, Mach s r c f rest ->
       f_code f = pre ++ compile_expr e ++ post -> f_pos f = length pre -> Post s' (cv v) (length (compile_expr e)) r c f rest) /\
@@ -1152,7 +1298,8 @@ Theorem vm_runs_z :
   (forall k s arr i body acc acc' s', ziter k s arr i body acc acc' s' -> IterRuns k s arr i body acc acc' s') /\
   (forall var to st s x first body acc s', zfor var to st s x first body acc s' -> ForRuns var to st s x first body acc s') /\
   (forall cond body s first v s', zwhile cond body s first v s' -> WhileRuns cond body s first v s') /\
-  (forall s reg b x s', zthrow s reg b x s' -> ThrowRuns s reg (compile_block b) x s').
+  (forall s reg b x s', zthrow s reg b x s' -> ThrowRuns s reg (compile_block b) x s') /\
+  (forall s reg b t v s', zbreak s reg b t v s' -> BreakRuns s reg (compile_block b) t v s').
 Proof.
   apply z_ind.
   - (* pure *) intros s e v HE r c f rest pre post (G & EF & M & B & D) EC EP.
@@ -1815,17 +1962,107 @@ Proof.
     { rewrite (moved_base _ _ MV2), (moved_base _ _ MV1); exact B. } { discriminate. } { discriminate. }
     { rewrite lower_idem, HN. reflexivity. }
     { destruct G2 as (_ & _ & _ & _ & _ & _ & SU); exact SU. }
-    destruct (throw_in_try s2 body x s3 _ c0 (set_pos f2 (S (f_pos f2))) rest2 (compile_block h) IHx G3) as (r4 & c4 & rest4 & S4 & K4 & CA).
+    destruct (throw_in_try s2 body x s3 _ c0 (set_pos f2 (S (f_pos f2))) rest2 (compile_block h) IHx G3) as (r4 & c4 & rest4 & ft0 & S4 & K4 & MT & CA).
     { rewrite quirks_upd_cur; exact D2. } { reflexivity. } { apply match_upd, match_set_pos; exact MM2. }
     inversion K4 as [|fa fc4 ra rest4' Ka Kb Ea Eb]; subst.
-    fold newf in CA. set (hf := handler_frame (set_base newf (length (c_values c0))) (compile_block h) (cv x)) in *.
-    destruct (caught_at _ _ _ _ _ _ CA eq_refl) as [A5 FR5].
-    destruct (scope_ends_of_body _ _ _ _ _ IHh r4 c4 hf fc4 rest4' (c_values c0) [] A5 FR5 eq_refl eq_refl eq_refl) as (r5 & c5 & fc5 & rest5 & S5 & M5 & EV5 & K5 & KR5).
+    fold newf in MT. set (hf := handler_frame ft0 (compile_block h) (cv x)) in *.
+    destruct (caught_at _ _ _ _ _ _ CA (eq_sym (moved_base _ _ MT))) as [A5 FR5].
+    destruct (scope_ends_of_body _ _ _ _ _ IHh r4 c4 hf fc4 rest4' (c_values c0) [] A5 FR5 eq_refl eq_refl (moved_exit _ _ MT)) as (r5 & c5 & fc5 & rest5 & S5 & M5 & EV5 & K5 & KR5).
     { rewrite (kept_base _ _ Ka). cbn. rewrite (moved_base _ _ MV2), (moved_base _ _ MV1); exact B. }
     eexists _, _, fc5, rest5. split; [eapply steps_trans; [exact S1|eapply steps_trans; [exact S2|eapply steps_trans; [exact S3|eapply steps_trans; [exact S4|exact S5]]]]|].
     split; [exact M5|]. split; [exact EV5|].
     split; [eapply moved_trans; [exact MV1|eapply moved_trans; [exact MV2|eapply moved_trans; [apply (moved_set_pos f2 (S (f_pos f2)))|apply kept_moved; eapply kept_trans; eassumption]]]|].
     split; [rewrite (kept_pos _ _ K5), (kept_pos _ _ Ka); cbn; rewrite P2, P1; lia|eapply kept_all_trans; [exact K1|eapply kept_all_trans; [exact K2|eapply kept_all_trans; eassumption]]].
+  - (* scopeName "t" *) intros s n a t s1 sc scs HN NL HA IHa ES EN r c f rest pre post MA EC EP.
+    rewrite (compile_unary_nonlit n a NL) in *. rewrite app_length. cbn [length]. rewrite <- app_assoc in EC.
+    post_intro (IHa r c f rest pre ([IUnary (lower n)] ++ post) MA EC EP) r1 c1 f1 rest1 S1 M1 EV1 MV1 P1 K1.
+    destruct (after_operands_code f f1 pre _ _ MV1 EC EP P1) as [EC1 EP1].
+    destruct M1 as (G1 & EF1 & MM1 & B1 & D1). destruct MA as (_ & _ & _ & B & _).
+    set (c0 := set_values (set_frames c1 (set_pos f1 (S (f_pos f1)) :: rest1)) (c_values c)).
+    destruct (match_name s1 r1 c0 (set_pos f1 (S (f_pos f1))) rest1 t sc scs eq_refl (match_set_pos _ _ _ _ _ MM1) ES EN) as [FS MM2].
+    destruct (unary_run r1 c1 f1 rest1 _ _ (lower n) (cv (RStr t)) (c_values c) (upd_top c0 (fun f0 => set_scope f0 t)) VNil G1 EF1 EC1 EP1 EV1) as [S2 G2].
+    { rewrite (moved_base _ _ MV1); exact B. } { discriminate. }
+    { rewrite lower_idem, HN. unfold op_unary. cbn [String.eqb Ascii.eqb Bool.eqb cv]. cbn [c_frames set_values set_frames]. rewrite FS. reflexivity. }
+    { destruct G1 as (_ & _ & _ & _ & _ & _ & SU); exact SU. }
+    eexists _, _, (set_scope (set_pos f1 (S (f_pos f1))) t), rest1. split; [eapply steps_trans; [exact S1|exact S2]|]. split.
+    + split; [exact G2|]. split; [reflexivity|]. split; [apply match_upd; exact MM2|].
+      split; [cbn; rewrite (moved_base _ _ MV1); lia|rewrite quirks_upd_cur; exact D1].
+    + split; [reflexivity|]. split; [|split; [cbn; rewrite P1; lia|exact K1]].
+      rewrite <- MV1. unfold moved. destruct f; reflexivity.
+  - (* call {.. breakOut own name ..} *) intros s n a b s1 t v s2 HN NL HA IHa HK IHk TN r c f rest pre post MA EC EP.
+    rewrite (compile_unary_nonlit n a NL) in *. rewrite app_length. cbn [length]. rewrite <- app_assoc in EC.
+    post_intro (IHa r c f rest pre ([IUnary (lower n)] ++ post) MA EC EP) r1 c1 f1 rest1 S1 M1 EV1 MV1 P1 K1.
+    destruct (after_operands_code f f1 pre _ _ MV1 EC EP P1) as [EC1 EP1].
+    destruct M1 as (G1 & EF1 & MM1 & B1 & D1). destruct MA as (_ & _ & _ & B & _).
+    set (c0 := set_values (set_frames c1 (set_pos f1 (S (f_pos f1)) :: rest1)) (c_values c)).
+    assert (TH : match get_variable c0 "_this" with Some t0 => t0 | None => VNil end = cv (this_of s1)).
+    { unfold get_variable. cbn [c_frames c0 set_values set_frames]. rewrite lookup_frames_set_pos.
+      destruct MM1 as [F1 _]. rewrite (lookup_match _ _ _ F1). unfold this_of.
+      change (lower "_this") with "_this". destruct (lookup_scopes "_this" (st_scopes s1)); reflexivity. }
+    set (newf := mk_frame (cur_ns c0) (compile_block b) None None (mvars [("_this", this_of s1)])).
+    destruct (unary_run r1 c1 f1 rest1 _ _ (lower n) (cv (RCode b)) (c_values c) (push_frame c0 newf) VNil G1 EF1 EC1 EP1 EV1) as [S2 G2].
+    { rewrite (moved_base _ _ MV1); exact B. } { discriminate. }
+    { rewrite lower_idem, HN. fold c0. cbn [cv]. unfold op_unary. cbn [String.eqb Ascii.eqb Bool.eqb]. rewrite TH. reflexivity. }
+    { destruct G1 as (_ & _ & _ & _ & _ & _ & SU); exact SU. }
+    pose proof (enter_at s1 [("_this", this_of s1)] (compile_block b) None _ c0 (set_pos f1 (S (f_pos f1))) rest1 G2) as A.
+    destruct (IHk _ _ (set_base newf (length (c_values c0))) (set_pos f1 (S (f_pos f1)) :: rest1) (c_values c0) [] 0 [] (set_base newf (length (c_values c0))) (set_pos f1 (S (f_pos f1))) rest1 [] (c_values c0)
+                (A (eq_trans (quirks_upd_cur _ _) D1) eq_refl (match_upd _ _ _ _ (match_set_pos _ _ _ _ _ MM1))) (fresh_one (push_value (push_frame c0 newf) VNil) (c_values c0) eq_refl) eq_refl eq_refl)
+      as (r3 & c3 & fc3 & rest3 & S3 & M3 & EV3 & K3 & KR3).
+    { apply find_name_top; [exact (proj1 (zbreak_facts _ _ _ _ _ _ HK))|exact TN]. } { reflexivity. } { reflexivity. } { constructor. }
+    { cbn. rewrite (moved_base _ _ MV1); exact B. } { reflexivity. } { reflexivity. }
+    eexists _, _, fc3, rest3. split; [eapply steps_trans; [exact S1|eapply steps_trans; [exact S2|exact S3]]|].
+    split; [rewrite drop_scopes_S, drop_scopes_0 in M3; exact M3|].
+    split; [exact EV3|].
+    split; [eapply moved_trans; [exact MV1|eapply moved_trans; [apply (moved_set_pos f1 (S (f_pos f1)))|apply kept_moved; exact K3]]|].
+    split; [rewrite (kept_pos _ _ K3); cbn; rewrite P1; lia|eapply kept_all_trans; eassumption].
+  - (* if true then {.. breakOut own name ..} *) intros s n a b blk s1 s2 t v s3 HN HA IHa HB IHb HK IHk TN r c f rest pre post MA EC EP.
+    rewrite compile_binary in *. rewrite !app_length. cbn [length]. rewrite <- !app_assoc in EC.
+    post_intro (IHa r c f rest pre (compile_expr b ++ [IBinary (lower n)] ++ post) MA EC EP) r1 c1 f1 rest1 S1 M1 EV1 MV1 P1 K1.
+    destruct (after_operands_code f f1 pre _ _ MV1 EC EP P1) as [EC1 EP1].
+    post_intro (IHb r1 c1 f1 rest1 (pre ++ compile_expr a) ([IBinary (lower n)] ++ post) M1 EC1 EP1) r2 c2 f2 rest2 S2 M2 EV2 MV2 P2 K2.
+    destruct (after_operands_code f1 f2 _ _ _ MV2 EC1 EP1 P2) as [EC2 EP2].
+    destruct M2 as (G2 & EF2 & MM2 & B2 & D2). destruct MA as (_ & _ & _ & B & _).
+    rewrite EV1 in EV2.
+    set (c0 := set_values (set_frames c2 (set_pos f2 (S (f_pos f2)) :: rest2)) (c_values c)).
+    set (newf := mk_frame (cur_ns c0) (compile_block (blk)) None None (mvars [])).
+    destruct (binary_run r2 c2 f2 rest2 _ _ (lower n) (cv (RIf true)) (cv (RCode blk)) (c_values c)
+                (push_frame c0 newf) VNil G2 EF2 EC2 EP2 EV2) as [S3 G3].
+    { rewrite (moved_base _ _ MV2), (moved_base _ _ MV1); exact B. } { discriminate. } { discriminate. } { rewrite lower_idem, HN. reflexivity. }
+    { destruct G2 as (_ & _ & _ & _ & _ & _ & SU); exact SU. }
+    pose proof (enter_at s2 [] (compile_block (blk)) None _ c0 (set_pos f2 (S (f_pos f2))) rest2 G3) as A.
+    destruct (IHk _ _ (set_base newf (length (c_values c0))) (set_pos f2 (S (f_pos f2)) :: rest2) (c_values c0) [] 0 [] (set_base newf (length (c_values c0))) (set_pos f2 (S (f_pos f2))) rest2 [] (c_values c0)
+                (A (eq_trans (quirks_upd_cur _ _) D2) eq_refl (match_upd _ _ _ _ (match_set_pos _ _ _ _ _ MM2))) (fresh_one (push_value (push_frame c0 newf) VNil) (c_values c0) eq_refl) eq_refl eq_refl)
+      as (r4 & c4 & fc4 & rest4 & S4 & M4 & EV4 & K4 & KR4).
+    { apply find_name_top; [exact (proj1 (zbreak_facts _ _ _ _ _ _ HK))|exact TN]. } { reflexivity. } { reflexivity. } { constructor. }
+    { cbn. rewrite (moved_base _ _ MV2), (moved_base _ _ MV1); exact B. } { reflexivity. } { reflexivity. }
+    eexists _, _, fc4, rest4. split; [eapply steps_trans; [exact S1|eapply steps_trans; [exact S2|eapply steps_trans; [exact S3|exact S4]]]|].
+    split; [rewrite drop_scopes_S, drop_scopes_0 in M4; exact M4|]. split; [exact EV4|].
+    split; [eapply moved_trans; [exact MV1|eapply moved_trans; [exact MV2|eapply moved_trans; [apply (moved_set_pos f2 (S (f_pos f2)))|apply kept_moved; exact K4]]]|].
+    split; [rewrite (kept_pos _ _ K4); cbn; rewrite P2, P1; lia|eapply kept_all_trans; [exact K1|eapply kept_all_trans; eassumption]].
+  - (* if c then {..} else {..}, the chosen block breaks out of its own scope *) intros s n a b cnd x0 y0 s1 s2 t v s3 HN HA IHa HB IHb HK IHk TN r c f rest pre post MA EC EP.
+    rewrite compile_binary in *. rewrite !app_length. cbn [length]. rewrite <- !app_assoc in EC.
+    post_intro (IHa r c f rest pre (compile_expr b ++ [IBinary (lower n)] ++ post) MA EC EP) r1 c1 f1 rest1 S1 M1 EV1 MV1 P1 K1.
+    destruct (after_operands_code f f1 pre _ _ MV1 EC EP P1) as [EC1 EP1].
+    post_intro (IHb r1 c1 f1 rest1 (pre ++ compile_expr a) ([IBinary (lower n)] ++ post) M1 EC1 EP1) r2 c2 f2 rest2 S2 M2 EV2 MV2 P2 K2.
+    destruct (after_operands_code f1 f2 _ _ _ MV2 EC1 EP1 P2) as [EC2 EP2].
+    destruct M2 as (G2 & EF2 & MM2 & B2 & D2). destruct MA as (_ & _ & _ & B & _).
+    rewrite EV1 in EV2.
+    set (c0 := set_values (set_frames c2 (set_pos f2 (S (f_pos f2)) :: rest2)) (c_values c)).
+    set (newf := mk_frame (cur_ns c0) (compile_block (if cnd then x0 else y0)) None None (mvars [])).
+    destruct (binary_run r2 c2 f2 rest2 _ _ (lower n) (cv (RIf cnd)) (cv (RArr [RCode x0; RCode y0])) (c_values c)
+                (push_frame c0 newf) VNil G2 EF2 EC2 EP2 EV2) as [S3 G3].
+    { rewrite (moved_base _ _ MV2), (moved_base _ _ MV1); exact B. } { discriminate. } { discriminate. } { rewrite lower_idem, HN. destruct cnd; reflexivity. }
+    { destruct G2 as (_ & _ & _ & _ & _ & _ & SU); exact SU. }
+    pose proof (enter_at s2 [] (compile_block (if cnd then x0 else y0)) None _ c0 (set_pos f2 (S (f_pos f2))) rest2 G3) as A.
+    destruct (IHk _ _ (set_base newf (length (c_values c0))) (set_pos f2 (S (f_pos f2)) :: rest2) (c_values c0) [] 0 [] (set_base newf (length (c_values c0))) (set_pos f2 (S (f_pos f2))) rest2 [] (c_values c0)
+                (A (eq_trans (quirks_upd_cur _ _) D2) eq_refl (match_upd _ _ _ _ (match_set_pos _ _ _ _ _ MM2))) (fresh_one (push_value (push_frame c0 newf) VNil) (c_values c0) eq_refl) eq_refl eq_refl)
+      as (r4 & c4 & fc4 & rest4 & S4 & M4 & EV4 & K4 & KR4).
+    { apply find_name_top; [exact (proj1 (zbreak_facts _ _ _ _ _ _ HK))|exact TN]. } { reflexivity. } { reflexivity. } { constructor. }
+    { cbn. rewrite (moved_base _ _ MV2), (moved_base _ _ MV1); exact B. } { reflexivity. } { reflexivity. }
+    eexists _, _, fc4, rest4. split; [eapply steps_trans; [exact S1|eapply steps_trans; [exact S2|eapply steps_trans; [exact S3|exact S4]]]|].
+    split; [rewrite drop_scopes_S, drop_scopes_0 in M4; exact M4|]. split; [exact EV4|].
+    split; [eapply moved_trans; [exact MV1|eapply moved_trans; [exact MV2|eapply moved_trans; [apply (moved_set_pos f2 (S (f_pos f2)))|apply kept_moved; exact K4]]]|].
+    split; [rewrite (kept_pos _ _ K4); cbn; rewrite P2, P1; lia|eapply kept_all_trans; [exact K1|eapply kept_all_trans; eassumption]].
   - (* no elements *) intros s r c f rest pre post MA EC EP. split; [|reflexivity].
     exists r, c, f, rest. split; [apply StepsRefl|]. split; [exact MA|]. split; [reflexivity|]. split; [apply moved_refl|].
     split; [cbn; lia|apply kept_all_refl].
@@ -2241,12 +2478,12 @@ Proof.
     destruct (end_run s1 reg1 r1 c1 f1 rest1 below _ _ A1 EC1 EP1) as (r2 & c2 & S2 & A2 & FR2).
     destruct (chain_kept f restf inner ft rest (set_pos f1 (S (f_pos f1))) rest1 h (cv x) CH HF HErr) as (inner1 & ft1 & rest1' & CH1 & HF1 & HE1 & HH1 & LEN1 & KR1 & FB1).
     { eapply moved_trans; [exact MV1|apply moved_set_pos]. } { exact K1. }
-    destruct (IHt r2 c2 (set_pos f1 (S (f_pos f1))) rest1 below (pre ++ compile_stmt st ++ [IEnd]) inner1 ft1 rest1' h jn below_t A2 FR2) as (r3 & c3 & rest3 & S3 & K3 & CA).
+    destruct (IHt r2 c2 (set_pos f1 (S (f_pos f1))) rest1 below (pre ++ compile_stmt st ++ [IEnd]) inner1 ft1 rest1' h jn below_t A2 FR2) as (r3 & c3 & rest3 & ft0 & S3 & K3 & MT & CA).
     { cbn [set_pos f_code]. rewrite EC1, <- !app_assoc. reflexivity. }
     { cbn [set_pos f_pos]. rewrite EP1, !app_length. cbn. lia. }
     { exact CH1. } { exact HF1. } { exact HE1. } { exact EB. } { exact UJ. } { rewrite FB1. exact LBT. }
-    exists r3, c3, rest3. split; [eapply steps_trans; [exact S1|eapply steps_trans; [exact S2|exact S3]]|].
-    split; [eapply kept_all_trans; eassumption|]. rewrite LEN1, HH1 in CA. exact CA.
+    exists r3, c3, rest3, ft0. split; [eapply steps_trans; [exact S1|eapply steps_trans; [exact S2|exact S3]]|].
+    split; [eapply kept_all_trans; eassumption|]. split; [eapply moved_trans; eassumption|]. rewrite LEN1 in CA. exact CA.
   - (* throw v *)
     intros s reg n e v s1 rest0 HN NL HE IHe NNv r c f restf below pre inner ft rest h jn below_t (MA & LB & top & EV & RR) FR EC EP CH HF HErr EB UJ LBT.
     rewrite (compile_block_unary n e rest0 NL) in EC.
@@ -2257,9 +2494,9 @@ Proof.
     destruct (throw_run r1 c1 f1 rest1 _ _ (lower n) (cv v) (c_values c) inner1 ft1 rest1' h G1 EF1 EC1 EP1) as [S2 G2].
     { rewrite lower_idem. exact HN. } { exact EV1. } { apply nonnil_cv; exact NNv. } { rewrite (moved_base _ _ MV1); exact B. }
     { exact CH1. } { exact HF1. } { exact HE1. }
-    eexists _, _, rest1'. split; [eapply steps_trans; [exact S1|exact S2]|]. split; [exact KR1|].
-    split; [exact G2|]. split; [rewrite quirks_upd_cur; exact D1|]. rewrite HH1. split; [reflexivity|]. split.
-    + apply match_upd. rewrite <- HH1, <- LEN1. apply match_after_throw. rewrite <- CH1. exact MM1.
+    eexists _, _, rest1', ft1. split; [eapply steps_trans; [exact S1|exact S2]|]. split; [exact KR1|]. split; [exact HH1|].
+    split; [exact G2|]. split; [rewrite quirks_upd_cur; exact D1|]. split; [reflexivity|]. split.
+    + apply match_upd. rewrite <- LEN1. apply match_after_throw. rewrite <- CH1. exact MM1.
     + exists jn. split; [|exact UJ]. cbn [push_value set_values set_frames c_values].
       rewrite (moved_base _ _ MV1), <- LB, EV, app_length. replace (length top + length below - length below) with (length top) by lia.
       rewrite skipn_app, skipn_all, Nat.sub_diag. cbn [skipn app]. rewrite EB. reflexivity.
@@ -2277,9 +2514,9 @@ Proof.
     destruct (throw_if_run r2 c2 f2 rest2 _ _ (lower n) (cv v) (c_values c) inner1 ft1 rest1' h G2 EF2 EC2 EP2) as [S3 G3].
     { rewrite lower_idem. exact HN. } { exact EV2. } { apply nonnil_cv; exact NNv. } { rewrite (moved_base _ _ MV2), (moved_base _ _ MV1); exact B. }
     { exact CH1. } { exact HF1. } { exact HE1. }
-    eexists _, _, rest1'. split; [eapply steps_trans; [exact S1|eapply steps_trans; [exact S2|exact S3]]|]. split; [exact KR1|].
-    split; [exact G3|]. split; [rewrite quirks_upd_cur; exact D2|]. rewrite HH1. split; [reflexivity|]. split.
-    + apply match_upd. rewrite <- HH1, <- LEN1. apply match_after_throw. rewrite <- CH1. exact MM2.
+    eexists _, _, rest1', ft1. split; [eapply steps_trans; [exact S1|eapply steps_trans; [exact S2|exact S3]]|]. split; [exact KR1|]. split; [exact HH1|].
+    split; [exact G3|]. split; [rewrite quirks_upd_cur; exact D2|]. split; [reflexivity|]. split.
+    + apply match_upd. rewrite <- LEN1. apply match_after_throw. rewrite <- CH1. exact MM2.
     + exists jn. split; [|exact UJ]. cbn [push_value set_values set_frames c_values].
       rewrite (moved_base _ _ MV2), (moved_base _ _ MV1), <- LB, EV, app_length. replace (length top + length below - length below) with (length top) by lia.
       rewrite skipn_app, skipn_all, Nat.sub_diag. cbn [skipn app]. rewrite EB. reflexivity.
@@ -2301,12 +2538,12 @@ Proof.
     { destruct G1 as (_ & _ & _ & _ & _ & _ & SU); exact SU. }
     destruct (chain_kept f restf inner ft rest (set_pos f1 (S (f_pos f1))) rest1 h (cv x) CH HF HErr) as (inner1 & ft1 & rest1' & CH1 & HF1 & HE1 & HH1 & LEN1 & KR1 & FB1).
     { eapply moved_trans; [exact MV1|apply moved_set_pos]. } { exact K1. }
-    destruct (throw_in_scope s1 [("_this", this_of s1)] b x s2 _ c0 (set_pos f1 (S (f_pos f1))) rest1 inner1 ft1 rest1' h (top ++ jn) below_t IHt G2) as (r3 & c3 & rest3 & S3 & K3 & CA).
+    destruct (throw_in_scope s1 [("_this", this_of s1)] b x s2 _ c0 (set_pos f1 (S (f_pos f1))) rest1 inner1 ft1 rest1' h (top ++ jn) below_t IHt G2) as (r3 & c3 & rest3 & ft0 & S3 & K3 & MT & CA).
     { rewrite quirks_upd_cur; exact D1. } { reflexivity. } { apply match_upd, match_set_pos; exact MM1. }
     { exact CH1. } { exact HF1. } { exact HE1. } { cbn [c0 set_values c_values]. rewrite EV, EB, app_assoc. reflexivity. }
     { apply Forall_app. split; [exact (fresh_under c top below EV FR)|exact UJ]. } { rewrite FB1. exact LBT. }
-    exists r3, c3, rest3. split; [eapply steps_trans; [exact S1|eapply steps_trans; [exact S2|exact S3]]|].
-    split; [eapply kept_all_trans; eassumption|]. rewrite LEN1, HH1 in CA. exact CA.
+    exists r3, c3, rest3, ft0. split; [eapply steps_trans; [exact S1|eapply steps_trans; [exact S2|exact S3]]|].
+    split; [eapply kept_all_trans; eassumption|]. split; [eapply moved_trans; eassumption|]. rewrite LEN1 in CA. exact CA.
   - (* if true then {.. throw ..} as a statement *)
     intros s reg n a b blk s1 s2 x s3 rest0 HN HA IHa HB IHb HT IHt r c f restf below pre inner ft rest h jn below_t (MA & LB & top & EV & RR) FR EC EP CH HF HErr EB UJ LBT.
     rewrite compile_block_exit in EC.
@@ -2323,12 +2560,12 @@ Proof.
     { destruct G2 as (_ & _ & _ & _ & _ & _ & SU); exact SU. }
     destruct (chain_kept f restf inner ft rest (set_pos f2 (S (f_pos f2))) rest2 h (cv x) CH HF HErr) as (inner1 & ft1 & rest1' & CH1 & HF1 & HE1 & HH1 & LEN1 & KR1 & FB1).
     { eapply moved_trans; [exact MV1|eapply moved_trans; [exact MV2|apply moved_set_pos]]. } { eapply kept_all_trans; eassumption. }
-    destruct (throw_in_scope s2 [] blk x s3 _ c0 (set_pos f2 (S (f_pos f2))) rest2 inner1 ft1 rest1' h (top ++ jn) below_t IHt G3) as (r4 & c4 & rest4 & S4 & K4 & CA).
+    destruct (throw_in_scope s2 [] blk x s3 _ c0 (set_pos f2 (S (f_pos f2))) rest2 inner1 ft1 rest1' h (top ++ jn) below_t IHt G3) as (r4 & c4 & rest4 & ft0 & S4 & K4 & MT & CA).
     { rewrite quirks_upd_cur; exact D2. } { reflexivity. } { apply match_upd, match_set_pos; exact MM2. }
     { exact CH1. } { exact HF1. } { exact HE1. } { cbn [c0 set_values c_values]. rewrite EV, EB, app_assoc. reflexivity. }
     { apply Forall_app. split; [exact (fresh_under c top below EV FR)|exact UJ]. } { rewrite FB1. exact LBT. }
-    exists r4, c4, rest4. split; [eapply steps_trans; [exact S1|eapply steps_trans; [exact S2|eapply steps_trans; [exact S3|exact S4]]]|].
-    split; [eapply kept_all_trans; eassumption|]. rewrite LEN1, HH1 in CA. exact CA.
+    exists r4, c4, rest4, ft0. split; [eapply steps_trans; [exact S1|eapply steps_trans; [exact S2|eapply steps_trans; [exact S3|exact S4]]]|].
+    split; [eapply kept_all_trans; eassumption|]. split; [eapply moved_trans; eassumption|]. rewrite LEN1 in CA. exact CA.
   - (* if c then {..} else {..} as a statement, the chosen block throws *)
     intros s reg n a b cnd x0 y0 s1 s2 x s3 rest0 HN HA IHa HB IHb HT IHt r c f restf below pre inner ft rest h jn below_t (MA & LB & top & EV & RR) FR EC EP CH HF HErr EB UJ LBT.
     rewrite compile_block_exit in EC.
@@ -2346,12 +2583,12 @@ Proof.
     { destruct G2 as (_ & _ & _ & _ & _ & _ & SU); exact SU. }
     destruct (chain_kept f restf inner ft rest (set_pos f2 (S (f_pos f2))) rest2 h (cv x) CH HF HErr) as (inner1 & ft1 & rest1' & CH1 & HF1 & HE1 & HH1 & LEN1 & KR1 & FB1).
     { eapply moved_trans; [exact MV1|eapply moved_trans; [exact MV2|apply moved_set_pos]]. } { eapply kept_all_trans; eassumption. }
-    destruct (throw_in_scope s2 [] (if cnd then x0 else y0) x s3 _ c0 (set_pos f2 (S (f_pos f2))) rest2 inner1 ft1 rest1' h (top ++ jn) below_t IHt G3) as (r4 & c4 & rest4 & S4 & K4 & CA).
+    destruct (throw_in_scope s2 [] (if cnd then x0 else y0) x s3 _ c0 (set_pos f2 (S (f_pos f2))) rest2 inner1 ft1 rest1' h (top ++ jn) below_t IHt G3) as (r4 & c4 & rest4 & ft0 & S4 & K4 & MT & CA).
     { rewrite quirks_upd_cur; exact D2. } { reflexivity. } { apply match_upd, match_set_pos; exact MM2. }
     { exact CH1. } { exact HF1. } { exact HE1. } { cbn [c0 set_values c_values]. rewrite EV, EB, app_assoc. reflexivity. }
     { apply Forall_app. split; [exact (fresh_under c top below EV FR)|exact UJ]. } { rewrite FB1. exact LBT. }
-    exists r4, c4, rest4. split; [eapply steps_trans; [exact S1|eapply steps_trans; [exact S2|eapply steps_trans; [exact S3|exact S4]]]|].
-    split; [eapply kept_all_trans; eassumption|]. rewrite LEN1, HH1 in CA. exact CA.
+    exists r4, c4, rest4, ft0. split; [eapply steps_trans; [exact S1|eapply steps_trans; [exact S2|eapply steps_trans; [exact S3|exact S4]]]|].
+    split; [eapply kept_all_trans; eassumption|]. split; [eapply moved_trans; eassumption|]. rewrite LEN1 in CA. exact CA.
   - (* try {.. throw ..} catch {.. throw ..} as a statement: the handler's throw goes on outwards *)
     intros s reg n a b body hb s1 s2 x s3 y s4 rest0 HN HA IHa HB IHb HX IHx HY IHy r c f restf below pre inner ft rest h jn below_t (MA & LB & top & EV & RR) FR EC EP CH HF HErr EB UJ LBT.
     rewrite compile_block_exit in EC.
@@ -2368,20 +2605,150 @@ Proof.
     { rewrite (moved_base _ _ MV2), (moved_base _ _ MV1); exact B. } { discriminate. } { discriminate. }
     { rewrite lower_idem, HN. reflexivity. }
     { destruct G2 as (_ & _ & _ & _ & _ & _ & SU); exact SU. }
-    destruct (throw_in_try s2 body x s3 _ c0 (set_pos f2 (S (f_pos f2))) rest2 (compile_block hb) IHx G3) as (r4 & c4 & rest4 & S4 & K4 & CA).
+    destruct (throw_in_try s2 body x s3 _ c0 (set_pos f2 (S (f_pos f2))) rest2 (compile_block hb) IHx G3) as (r4 & c4 & rest4 & ftb & S4 & K4 & MTb & CA).
     { rewrite quirks_upd_cur; exact D2. } { reflexivity. } { apply match_upd, match_set_pos; exact MM2. }
     inversion K4 as [|fa fc4 ra rest4' Ka Kb Ea Eb]; subst.
-    fold newf in CA. set (hf := handler_frame (set_base newf (length (c_values c0))) (compile_block hb) (cv x)) in *.
-    destruct (caught_at _ _ _ _ _ _ CA eq_refl) as [A5 FR5].
+    fold newf in MTb. set (hf := handler_frame ftb (compile_block hb) (cv x)) in *.
+    destruct (caught_at _ _ _ _ _ _ CA (eq_sym (moved_base _ _ MTb))) as [A5 FR5].
     destruct (chain_kept f restf inner ft rest fc4 rest4' h (cv y) CH HF HErr) as (inner1 & ft1 & rest1' & CH1 & HF1 & HE1 & HH1 & LEN1 & KR1 & FB1).
     { eapply moved_trans; [exact MV1|eapply moved_trans; [exact MV2|eapply moved_trans; [apply (moved_set_pos f2 (S (f_pos f2)))|apply kept_moved; exact Ka]]]. }
     { eapply kept_all_trans; [exact K1|eapply kept_all_trans; eassumption]. }
-    destruct (IHy r4 c4 hf (fc4 :: rest4') (c_values c0) [] (hf :: inner1) ft1 rest1' h (top ++ jn) below_t A5 FR5 eq_refl eq_refl) as (r5 & c5 & rest5 & S5 & K5 & CA5).
+    destruct (IHy r4 c4 hf (fc4 :: rest4') (c_values c0) [] (hf :: inner1) ft1 rest1' h (top ++ jn) below_t A5 FR5 eq_refl eq_refl) as (r5 & c5 & rest5 & ft0 & S5 & K5 & MT & CA5).
     { cbn [app]. rewrite CH1. reflexivity. } { constructor; [reflexivity|exact HF1]. } { exact HE1. }
     { cbn [c0 set_values c_values]. rewrite EV, app_assoc. reflexivity. }
     { apply Forall_app. split; [exact (fresh_under c top _ EV FR)|exact UJ]. } { rewrite FB1. exact LBT. }
-    exists r5, c5, rest5. split; [eapply steps_trans; [exact S1|eapply steps_trans; [exact S2|eapply steps_trans; [exact S3|eapply steps_trans; [exact S4|exact S5]]]]|].
-    split; [eapply kept_all_trans; eassumption|]. cbn [length] in CA5. rewrite drop_scopes_S, LEN1, HH1 in CA5. exact CA5.
+    exists r5, c5, rest5, ft0. split; [eapply steps_trans; [exact S1|eapply steps_trans; [exact S2|eapply steps_trans; [exact S3|eapply steps_trans; [exact S4|exact S5]]]]|].
+    split; [eapply kept_all_trans; eassumption|]. split; [eapply moved_trans; eassumption|]. cbn [length] in CA5. rewrite drop_scopes_S, LEN1 in CA5. exact CA5.
+  - (* breakOut: a statement, then the rest of the block that breaks out *)
+    intros s reg st reg1 s1 st2 rest0 t v s' HS IHs HK IHk r c f restf below pre k top fn fc rest jn below_n A FR EC EP FN CH LT HB HC EB LBN.
+    rewrite compile_block_cons2 in EC.
+    destruct (IHs r c f restf below pre _ A FR EC EP) as (r1 & c1 & f1 & rest1 & S1 & A1 & MV1 & P1 & K1).
+    assert (EC1 : f_code f1 = (pre ++ compile_stmt st) ++ IEnd :: compile_block (st2 :: rest0)).
+    { rewrite (moved_code _ _ MV1), EC, <- app_assoc. reflexivity. }
+    assert (EP1 : f_pos f1 = length (pre ++ compile_stmt st)) by (rewrite app_length, P1, EP; reflexivity).
+    destruct (end_run s1 reg1 r1 c1 f1 rest1 below _ _ A1 EC1 EP1) as (r2 & c2 & S2 & A2 & FR2).
+    destruct (chain_kept_b f restf top fn fc rest (set_pos f1 (S (f_pos f1))) rest1 CH) as (top1 & fn1 & fc1 & rest1' & CH1 & LT1 & HB1 & FB1 & KC1 & KR1).
+    { eapply moved_trans; [exact MV1|apply moved_set_pos]. } { exact K1. } { exact HB. }
+    destruct (IHk r2 c2 (set_pos f1 (S (f_pos f1))) rest1 below (pre ++ compile_stmt st ++ [IEnd]) k top1 fn1 fc1 rest1' jn below_n A2 FR2) as (r3 & c3 & fc3 & rest3 & S3 & M3 & EV3 & K3 & KR3).
+    { cbn [set_pos f_code]. rewrite EC1, <- !app_assoc. reflexivity. }
+    { cbn [set_pos f_pos]. rewrite EP1, !app_length. cbn. lia. }
+    { exact FN. } { exact CH1. } { rewrite LT1. exact LT. } { exact HB1. } { rewrite FB1, (kept_base _ _ KC1). exact HC. } { exact EB. } { rewrite FB1. exact LBN. }
+    exists r3, c3, fc3, rest3. split; [eapply steps_trans; [exact S1|eapply steps_trans; [exact S2|exact S3]]|].
+    split; [exact M3|]. split; [exact EV3|]. split; [eapply kept_trans; eassumption|eapply kept_all_trans; eassumption].
+  - (* breakOut "t" *)
+    intros s reg n e t s1 rest0 HN NL HE IHe NT r c f restf below pre k top fn fc rest jn below_n (MA & LB & topv & EV & RR) FR EC EP FN CH LT HB HC EB LBN.
+    rewrite (compile_block_unary n e rest0 NL) in EC.
+    post_intro (IHe r c f restf pre _ MA EC EP) r1 c1 f1 rest1 S1 M1 EV1 MV1 P1 K1.
+    destruct (after_operands_code f f1 pre _ _ MV1 EC EP P1) as [EC1 EP1].
+    destruct M1 as (G1 & EF1 & MM1 & B1 & D1). destruct MA as (_ & _ & _ & B & _).
+    destruct (chain_kept_b f restf top fn fc rest f1 rest1 CH MV1 K1 HB) as (top1 & fn1 & fc1 & rest1' & CH1 & LT1 & HB1 & FB1 & KC1 & KR1).
+    destruct (find_name_frames t (st_scopes s1) (f1 :: rest1) 0 top1 fn1 (fc1 :: rest1') (proj1 MM1)) as [HS1 HE1]; [cbn; rewrite LT1, LT; exact FN|exact CH1|].
+    assert (LV : f_base fn1 <= length (c_values c)) by (rewrite FB1, <- LBN, EV, EB, !app_length; lia).
+    destruct (breakout_run r1 c1 f1 rest1 _ _ (lower n) t (c_values c) top1 fn1 (fc1 :: rest1') G1 (quirks_defects _ D1) EF1 EC1 EP1) as [S2 G2].
+    { rewrite lower_idem. exact HN. } { exact NT. } { exact EV1. } { rewrite (moved_base _ _ MV1); exact B. }
+    { exact CH1. } { exact HS1. } { exact HE1. } { exact HB1. } { exact LV. }
+    match type of G2 with Good _ ?x => set (cX := x) in * end.
+    exists (upd_cur r1 cX), cX, fc1, rest1'. split; [eapply steps_trans; [exact S1|exact S2]|].
+    assert (VB : skipn (length (c_values c) - f_base fn1) (c_values c) = below_n).
+    { rewrite FB1, <- LBN, EV, EB, !app_length. replace (length topv + (length jn + length below_n) - length below_n) with (length (topv ++ jn)) by (rewrite app_length; lia).
+      rewrite app_assoc, skipn_app, skipn_all, Nat.sub_diag. reflexivity. }
+    split; [|split; [unfold cX; cbn [push_value set_values set_frames c_values]; rewrite VB; reflexivity|split; [exact KC1|exact KR1]]].
+    split; [exact G2|]. split; [reflexivity|]. split; [|split; [|rewrite quirks_upd_cur; exact D1]].
+    + apply match_upd. rewrite <- LT, <- LT1. apply (match_after_break s1 r1 top1 fn1 (fc1 :: rest1')). rewrite <- CH1. exact MM1.
+    + unfold cX. cbn [push_value set_values set_frames c_values length]. rewrite VB, (kept_base _ _ KC1), LBN. lia.
+  - (* v breakOut "t" *)
+    intros s reg n a b v t s1 s2 rest0 HN HA IHa NNv HB0 IHb NT r c f restf below pre k top fn fc rest jn below_n (MA & LB & topv & EV & RR) FR EC EP FN CH LT HB HC EB LBN.
+    rewrite compile_block_exit in EC.
+    post_intro (IHa r c f restf pre _ MA EC EP) r1 c1 f1 rest1 S1 M1 EV1 MV1 P1 K1.
+    destruct (after_operands_code f f1 pre _ _ MV1 EC EP P1) as [EC1 EP1].
+    post_intro (IHb r1 c1 f1 rest1 (pre ++ compile_expr a) _ M1 EC1 EP1) r2 c2 f2 rest2 S2 M2 EV2 MV2 P2 K2.
+    destruct (after_operands_code f1 f2 _ _ _ MV2 EC1 EP1 P2) as [EC2 EP2].
+    destruct M2 as (G2 & EF2 & MM2 & B2 & D2). destruct MA as (_ & _ & _ & B & _).
+    rewrite EV1 in EV2.
+    destruct (chain_kept_b f restf top fn fc rest f2 rest2 CH) as (top1 & fn1 & fc1 & rest1' & CH1 & LT1 & HB1 & FB1 & KC1 & KR1).
+    { eapply moved_trans; eassumption. } { eapply kept_all_trans; eassumption. } { exact HB. }
+    destruct (find_name_frames t (st_scopes s2) (f2 :: rest2) 0 top1 fn1 (fc1 :: rest1') (proj1 MM2)) as [HS1 HE1]; [cbn; rewrite LT1, LT; exact FN|exact CH1|].
+    assert (LV : f_base fn1 <= length (c_values c)) by (rewrite FB1, <- LBN, EV, EB, !app_length; lia).
+    destruct (breakout_value_run r2 c2 f2 rest2 _ _ (lower n) t (cv v) (c_values c) top1 fn1 (fc1 :: rest1') G2 (quirks_defects _ D2) EF2 EC2 EP2) as [S3 G3].
+    { rewrite lower_idem. exact HN. } { exact NT. } { exact EV2. } { apply nonnil_cv; exact NNv. } { rewrite (moved_base _ _ MV2), (moved_base _ _ MV1); exact B. }
+    { exact CH1. } { exact HS1. } { exact HE1. } { exact HB1. } { exact LV. }
+    match type of G3 with Good _ ?x => set (cX := x) in * end.
+    exists (upd_cur r2 cX), cX, fc1, rest1'. split; [eapply steps_trans; [exact S1|eapply steps_trans; [exact S2|exact S3]]|].
+    assert (VB : skipn (length (c_values c) - f_base fn1) (c_values c) = below_n).
+    { rewrite FB1, <- LBN, EV, EB, !app_length. replace (length topv + (length jn + length below_n) - length below_n) with (length (topv ++ jn)) by (rewrite app_length; lia).
+      rewrite app_assoc, skipn_app, skipn_all, Nat.sub_diag. reflexivity. }
+    split; [|split; [unfold cX; cbn [push_value set_values set_frames c_values]; rewrite VB; reflexivity|split; [exact KC1|exact KR1]]].
+    split; [exact G3|]. split; [reflexivity|]. split; [|split; [|rewrite quirks_upd_cur; exact D2]].
+    + apply match_upd. rewrite <- LT, <- LT1. apply (match_after_break s2 r2 top1 fn1 (fc1 :: rest1')). rewrite <- CH1. exact MM2.
+    + unfold cX. cbn [push_value set_values set_frames c_values length]. rewrite VB, (kept_base _ _ KC1), LBN. lia.
+  - (* call {.. breakOut ..} as a statement, the scope of the call is not the one *)
+    intros s reg n a b s1 t v s2 rest0 HN NL HA IHa HK IHk TN r c f restf below pre k top fn fc rest jn below_n (MA & LB & topv & EV & RR) FR EC EP FN CH LT HB HC EB LBN.
+    rewrite (compile_block_unary n a rest0 NL) in EC.
+    post_intro (IHa r c f restf pre _ MA EC EP) r1 c1 f1 rest1 S1 M1 EV1 MV1 P1 K1.
+    destruct (after_operands_code f f1 pre _ _ MV1 EC EP P1) as [EC1 EP1].
+    destruct M1 as (G1 & EF1 & MM1 & B1 & D1). destruct MA as (_ & _ & _ & B & _).
+    set (c0 := set_values (set_frames c1 (set_pos f1 (S (f_pos f1)) :: rest1)) (c_values c)).
+    assert (TH : match get_variable c0 "_this" with Some t0 => t0 | None => VNil end = cv (this_of s1)).
+    { unfold get_variable. cbn [c_frames c0 set_values set_frames]. rewrite lookup_frames_set_pos.
+      destruct MM1 as [F1 _]. rewrite (lookup_match _ _ _ F1). unfold this_of.
+      change (lower "_this") with "_this". destruct (lookup_scopes "_this" (st_scopes s1)); reflexivity. }
+    destruct (unary_run r1 c1 f1 rest1 _ _ (lower n) (cv (RCode b)) (c_values c)
+                (push_frame c0 (mk_frame (cur_ns c0) (compile_block b) None None (mvars [("_this", this_of s1)]))) VNil G1 EF1 EC1 EP1 EV1) as [S2 G2].
+    { rewrite (moved_base _ _ MV1); exact B. } { discriminate. }
+    { rewrite lower_idem, HN. fold c0. cbn [cv]. unfold op_unary. cbn [String.eqb Ascii.eqb Bool.eqb]. rewrite TH. reflexivity. }
+    { destruct G1 as (_ & _ & _ & _ & _ & _ & SU); exact SU. }
+    destruct (chain_kept_b f restf top fn fc rest (set_pos f1 (S (f_pos f1))) rest1 CH) as (top1 & fn1 & fc1 & rest1' & CH1 & LT1 & HB1 & FB1 & KC1 & KR1).
+    { eapply moved_trans; [exact MV1|apply moved_set_pos]. } { exact K1. } { exact HB. }
+    destruct (break_in_scope s1 [("_this", this_of s1)] b t v s2 _ c0 (set_pos f1 (S (f_pos f1))) rest1 k top1 fn1 fc1 rest1' (topv ++ jn) below_n IHk G2) as (r3 & c3 & fc3 & rest3 & S3 & M3 & EV3 & K3 & KR3).
+    { rewrite quirks_upd_cur; exact D1. } { reflexivity. } { apply match_upd, match_set_pos; exact MM1. }
+    { cbn. rewrite (moved_base _ _ MV1); exact B. } { exact TN. } { exact FN. } { exact CH1. } { rewrite LT1; exact LT. } { exact HB1. }
+    { rewrite FB1, (kept_base _ _ KC1). exact HC. } { cbn [c0 set_values c_values]. rewrite EV, EB, app_assoc. reflexivity. } { rewrite FB1. exact LBN. }
+    exists r3, c3, fc3, rest3. split; [eapply steps_trans; [exact S1|eapply steps_trans; [exact S2|exact S3]]|].
+    split; [exact M3|]. split; [exact EV3|]. split; [eapply kept_trans; eassumption|eapply kept_all_trans; eassumption].
+  - (* if true then {.. breakOut ..} as a statement, passing through *)
+    intros s reg n a b blk s1 s2 t v s3 rest0 HN HA IHa HB0 IHb HK IHk TN r c f restf below pre k top fn fc rest jn below_n (MA & LB & topv & EV & RR) FR EC EP FN CH LT HB HC EB LBN.
+    rewrite compile_block_exit in EC.
+    post_intro (IHa r c f restf pre _ MA EC EP) r1 c1 f1 rest1 S1 M1 EV1 MV1 P1 K1.
+    destruct (after_operands_code f f1 pre _ _ MV1 EC EP P1) as [EC1 EP1].
+    post_intro (IHb r1 c1 f1 rest1 (pre ++ compile_expr a) _ M1 EC1 EP1) r2 c2 f2 rest2 S2 M2 EV2 MV2 P2 K2.
+    destruct (after_operands_code f1 f2 _ _ _ MV2 EC1 EP1 P2) as [EC2 EP2].
+    destruct M2 as (G2 & EF2 & MM2 & B2 & D2). destruct MA as (_ & _ & _ & B & _).
+    rewrite EV1 in EV2.
+    set (c0 := set_values (set_frames c2 (set_pos f2 (S (f_pos f2)) :: rest2)) (c_values c)).
+    destruct (binary_run r2 c2 f2 rest2 _ _ (lower n) (cv (RIf true)) (cv (RCode blk)) (c_values c)
+                (push_frame c0 (mk_frame (cur_ns c0) (compile_block (blk)) None None (mvars []))) VNil G2 EF2 EC2 EP2 EV2) as [S3 G3].
+    { rewrite (moved_base _ _ MV2), (moved_base _ _ MV1); exact B. } { discriminate. } { discriminate. } { rewrite lower_idem, HN. reflexivity. }
+    { destruct G2 as (_ & _ & _ & _ & _ & _ & SU); exact SU. }
+    destruct (chain_kept_b f restf top fn fc rest (set_pos f2 (S (f_pos f2))) rest2 CH) as (top1 & fn1 & fc1 & rest1' & CH1 & LT1 & HB1 & FB1 & KC1 & KR1).
+    { eapply moved_trans; [exact MV1|eapply moved_trans; [exact MV2|apply moved_set_pos]]. } { eapply kept_all_trans; eassumption. } { exact HB. }
+    destruct (break_in_scope s2 [] (blk) t v s3 _ c0 (set_pos f2 (S (f_pos f2))) rest2 k top1 fn1 fc1 rest1' (topv ++ jn) below_n IHk G3) as (r4 & c4 & fc4 & rest4 & S4 & M4 & EV4 & K4 & KR4).
+    { rewrite quirks_upd_cur; exact D2. } { reflexivity. } { apply match_upd, match_set_pos; exact MM2. }
+    { cbn. rewrite (moved_base _ _ MV2), (moved_base _ _ MV1); exact B. } { exact TN. } { exact FN. } { exact CH1. } { rewrite LT1; exact LT. } { exact HB1. }
+    { rewrite FB1, (kept_base _ _ KC1). exact HC. } { cbn [c0 set_values c_values]. rewrite EV, EB, app_assoc. reflexivity. } { rewrite FB1. exact LBN. }
+    exists r4, c4, fc4, rest4. split; [eapply steps_trans; [exact S1|eapply steps_trans; [exact S2|eapply steps_trans; [exact S3|exact S4]]]|].
+    split; [exact M4|]. split; [exact EV4|]. split; [eapply kept_trans; eassumption|eapply kept_all_trans; eassumption].
+  - (* if c then {..} else {..} as a statement, passing through *)
+    intros s reg n a b cnd x0 y0 s1 s2 t v s3 rest0 HN HA IHa HB0 IHb HK IHk TN r c f restf below pre k top fn fc rest jn below_n (MA & LB & topv & EV & RR) FR EC EP FN CH LT HB HC EB LBN.
+    rewrite compile_block_exit in EC.
+    post_intro (IHa r c f restf pre _ MA EC EP) r1 c1 f1 rest1 S1 M1 EV1 MV1 P1 K1.
+    destruct (after_operands_code f f1 pre _ _ MV1 EC EP P1) as [EC1 EP1].
+    post_intro (IHb r1 c1 f1 rest1 (pre ++ compile_expr a) _ M1 EC1 EP1) r2 c2 f2 rest2 S2 M2 EV2 MV2 P2 K2.
+    destruct (after_operands_code f1 f2 _ _ _ MV2 EC1 EP1 P2) as [EC2 EP2].
+    destruct M2 as (G2 & EF2 & MM2 & B2 & D2). destruct MA as (_ & _ & _ & B & _).
+    rewrite EV1 in EV2.
+    set (c0 := set_values (set_frames c2 (set_pos f2 (S (f_pos f2)) :: rest2)) (c_values c)).
+    destruct (binary_run r2 c2 f2 rest2 _ _ (lower n) (cv (RIf cnd)) (cv (RArr [RCode x0; RCode y0])) (c_values c)
+                (push_frame c0 (mk_frame (cur_ns c0) (compile_block (if cnd then x0 else y0)) None None (mvars []))) VNil G2 EF2 EC2 EP2 EV2) as [S3 G3].
+    { rewrite (moved_base _ _ MV2), (moved_base _ _ MV1); exact B. } { discriminate. } { discriminate. } { rewrite lower_idem, HN. destruct cnd; reflexivity. }
+    { destruct G2 as (_ & _ & _ & _ & _ & _ & SU); exact SU. }
+    destruct (chain_kept_b f restf top fn fc rest (set_pos f2 (S (f_pos f2))) rest2 CH) as (top1 & fn1 & fc1 & rest1' & CH1 & LT1 & HB1 & FB1 & KC1 & KR1).
+    { eapply moved_trans; [exact MV1|eapply moved_trans; [exact MV2|apply moved_set_pos]]. } { eapply kept_all_trans; eassumption. } { exact HB. }
+    destruct (break_in_scope s2 [] (if cnd then x0 else y0) t v s3 _ c0 (set_pos f2 (S (f_pos f2))) rest2 k top1 fn1 fc1 rest1' (topv ++ jn) below_n IHk G3) as (r4 & c4 & fc4 & rest4 & S4 & M4 & EV4 & K4 & KR4).
+    { rewrite quirks_upd_cur; exact D2. } { reflexivity. } { apply match_upd, match_set_pos; exact MM2. }
+    { cbn. rewrite (moved_base _ _ MV2), (moved_base _ _ MV1); exact B. } { exact TN. } { exact FN. } { exact CH1. } { rewrite LT1; exact LT. } { exact HB1. }
+    { rewrite FB1, (kept_base _ _ KC1). exact HC. } { cbn [c0 set_values c_values]. rewrite EV, EB, app_assoc. reflexivity. } { rewrite FB1. exact LBN. }
+    exists r4, c4, fc4, rest4. split; [eapply steps_trans; [exact S1|eapply steps_trans; [exact S2|eapply steps_trans; [exact S3|exact S4]]]|].
+    split; [exact M4|]. split; [exact EV4|]. split; [eapply kept_trans; eassumption|eapply kept_all_trans; eassumption].
 Qed.
 
 
@@ -2534,6 +2901,19 @@ Lemma in_scope_throw f s sc b x s2 : eval_block f (push_scope s sc) b RNil = (OT
   in_scope_f f s sc b = (OThrow x, pop_scope s2).
 Proof. intros H. unfold in_scope_f. rewrite H. reflexivity. Qed.
 
+Lemma in_scope_break_caught f s sc b t v s2 : eval_block f (push_scope s sc) b RNil = (OBreak t v, s2) -> t <> "" -> top_name s2 = t ->
+  in_scope_f f s sc b = (ONormal v, pop_scope s2).
+Proof.
+  intros H NT TN. unfold in_scope_f. rewrite H. unfold top_name in TN. destruct (st_scopes s2) as [|sc' l]; [exfalso; apply NT; symmetry; exact TN|].
+  rewrite TN, String.eqb_refl. reflexivity.
+Qed.
+Lemma in_scope_break_pass f s sc b t v s2 : eval_block f (push_scope s sc) b RNil = (OBreak t v, s2) -> top_name s2 <> t ->
+  in_scope_f f s sc b = (OBreak t v, pop_scope s2).
+Proof.
+  intros H TN. unfold in_scope_f. rewrite H. unfold top_name in TN. destruct (st_scopes s2) as [|sc' l]; [reflexivity|].
+  destruct (String.eqb_spec (sc_name sc') t) as [E|_]; [contradiction|reflexivity].
+Qed.
+
 Theorem ref_runs_z :
   (forall s e v s', zev s e v s' -> exists f0, forall f, f0 <= f -> eval f s e = (ONormal v, s')) /\
   (forall s l vs s', zevs s l vs s' -> exists f0, forall f, f0 <= f -> forall acc, go_arr f s l acc = (ONormal (RArr (rev acc ++ vs)), s')) /\
@@ -2546,7 +2926,8 @@ Theorem ref_runs_z :
       for_loop_f f var to st body k s x first = (ONormal acc, s')) /\
   (forall cond body s first v s', zwhile cond body s first v s' -> exists f0 k0, forall f, f0 <= f -> forall k, k0 <= k -> forall n, first = Nat.eqb n 0 ->
       while_loop_f f cond body k s n = (ONormal v, s')) /\
-  (forall s reg b x s', zthrow s reg b x s' -> exists f0, forall f, f0 <= f -> eval_block f s b reg = (OThrow x, s')).
+  (forall s reg b x s', zthrow s reg b x s' -> exists f0, forall f, f0 <= f -> eval_block f s b reg = (OThrow x, s')) /\
+  (forall s reg b t v s', zbreak s reg b t v s' -> exists f0, forall f, f0 <= f -> eval_block f s b reg = (OBreak t v, s')).
 Proof.
   apply z_ind.
   - (* pure *) intros s e v HE. exists (esize e). intros f L. exact (proj2 (proj1 (pure_ref _ _) e v HE) s f (renv_ok_of s) L).
@@ -2691,6 +3072,24 @@ Proof.
     transitivity (eval_binary (S f) s2 "catch" (RTry body) (RCode h) (in_scope_f (S f)) plain_scope_f); [reflexivity|].
     rewrite eval_binary_catch. change (push_scope s2 (plain_scope_f s2 [])) with (enter s2 []). rewrite (IHx f) by lia.
     rewrite catch_after_throw, (IHh f) by lia. apply handler_after_out.
+  - (* scopeName "t" *) intros s n a t s1 sc scs HN NL HA [fa IHa] ES EN. exists (S (S fa)). intros [|[|f]] L; try lia.
+    rewrite (eval_S_unary _ _ _ _ NL), (IHa (S f)) by lia. rewrite HN.
+    unfold eval_unary. cbn [String.eqb Ascii.eqb Bool.eqb]. rewrite ES, EN. reflexivity.
+  - (* call {.. breakOut own name ..} *) intros s n a b s1 t v s2 HN NL HA [fa IHa] HK [fk IHk] TN. exists (S (S (fa + fk))). intros [|[|f]] L; try lia.
+    rewrite (eval_S_unary _ _ _ _ NL), (IHa (S f)) by lia. rewrite HN.
+    change (eval_unary (S f) s1 "call" (RCode b) (in_scope_f (S f)) plain_scope_f)
+      with (in_scope_f (S f) s1 (plain_scope_f s1 [("_this", this_of s1)]) b).
+    eapply (in_scope_break_caught _ _ _ _ t); [apply IHk; lia|exact (proj1 (zbreak_facts _ _ _ _ _ _ HK))|exact TN].
+  - (* if true then {.. breakOut own name ..} *) intros s n a b blk s1 s2 t v s3 HN HA [fa IHa] HB [fb IHb] HK [fk IHk] TN.
+    exists (S (S (fa + fb + fk))). intros [|[|f]] L; try lia.
+    rewrite eval_S_binary, (IHa (S f)), (IHb (S f)) by lia. rewrite HN.
+    transitivity (in_scope_f (S f) s2 (plain_scope_f s2 []) blk); [reflexivity|].
+    eapply (in_scope_break_caught _ _ _ _ t); [apply IHk; lia|exact (proj1 (zbreak_facts _ _ _ _ _ _ HK))|exact TN].
+  - (* if c then {..} else {..}, own name *) intros s n a b c x0 y0 s1 s2 t v s3 HN HA [fa IHa] HB [fb IHb] HK [fk IHk] TN.
+    exists (S (S (fa + fb + fk))). intros [|[|f]] L; try lia.
+    rewrite eval_S_binary, (IHa (S f)), (IHb (S f)) by lia. rewrite HN.
+    transitivity (in_scope_f (S f) s2 (plain_scope_f s2 []) (if c then x0 else y0)); [reflexivity|].
+    eapply (in_scope_break_caught _ _ _ _ t); [apply IHk; lia|exact (proj1 (zbreak_facts _ _ _ _ _ _ HK))|exact TN].
   - (* no elements *) intros s. exists 0. intros f _ acc. cbn. rewrite app_nil_r. reflexivity.
   - (* elements *) intros s e v s1 l vs s2 HE [fe IHe] NN HL [fl IHl]. exists (fe + fl). intros f L acc.
     cbn [go_arr]. rewrite (IHe f) by lia. fold (go_arr f).
@@ -2796,4 +3195,32 @@ Proof.
     destruct f as [|f]; [lia|].
     rewrite eval_binary_catch. change (push_scope s2 (plain_scope_f s2 [])) with (enter s2 []). rewrite (IHx f) by lia.
     rewrite catch_after_throw, (IHy f) by lia. rewrite handler_after_throw. reflexivity.
+  - (* breakOut: a statement, then the rest *) intros s reg st reg1 s1 st2 rest t v s' HS [fs IHs] HK [fk IHk]. exists (S (fs + fk)). intros [|f] L; [lia|].
+    rewrite (IHs f) by lia. unfold cont. apply IHk. lia.
+  - (* breakOut "t" *) intros s reg n e t s1 rest HN NL HE [fe IHe] NT. exists (S (S (S fe))). intros [|f] L; [lia|]. cbn [eval_block].
+    destruct f as [|f]; [lia|]. rewrite (eval_S_unary _ _ _ _ NL), (IHe f) by lia. rewrite HN.
+    destruct f as [|f]; [lia|]. reflexivity.
+  - (* v breakOut "t" *) intros s reg n a b v t s1 s2 rest HN HA [fa IHa] NNv HB [fb IHb] NT. exists (S (S (S (fa + fb)))). intros [|f] L; [lia|]. cbn [eval_block].
+    destruct f as [|f]; [lia|]. rewrite eval_S_binary, (IHa f), (IHb f) by lia. rewrite HN.
+    destruct f as [|f]; [lia|]. destruct NNv as [A1 A2]. destruct v; try contradiction; reflexivity.
+  - (* call {.. breakOut ..}, passing through *) intros s reg n a b s1 t v s2 rest HN NL HA [fa IHa] HK [fk IHk] TN. exists (S (S (S (fa + fk)))). intros [|f] L; [lia|]. cbn [eval_block].
+    destruct f as [|f]; [lia|]. rewrite (eval_S_unary _ _ _ _ NL), (IHa f) by lia. rewrite HN.
+    destruct f as [|f]; [lia|].
+    change (eval_unary (S f) s1 "call" (RCode b) (in_scope_f (S f)) plain_scope_f)
+      with (in_scope_f (S f) s1 (plain_scope_f s1 [("_this", this_of s1)]) b).
+    rewrite (in_scope_break_pass (S f) s1 _ b t v s2) by (try (apply IHk; lia); exact TN). reflexivity.
+  - (* if true then {.. breakOut ..}, passing through *) intros s reg n a b blk s1 s2 t v s3 rest HN HA [fa IHa] HB [fb IHb] HK [fk IHk] TN.
+    exists (S (S (S (fa + fb + fk)))). intros [|f] L; [lia|]. cbn [eval_block].
+    destruct f as [|f]; [lia|]. rewrite eval_S_binary, (IHa f), (IHb f) by lia. rewrite HN.
+    destruct f as [|f]; [lia|].
+    change (eval_binary (S f) s2 "then" (RIf true) (RCode blk) (in_scope_f (S f)) plain_scope_f)
+      with (in_scope_f (S f) s2 (plain_scope_f s2 []) blk).
+    rewrite (in_scope_break_pass (S f) s2 _ blk t v s3) by (try (apply IHk; lia); exact TN). reflexivity.
+  - (* if c then {..} else {..}, passing through *) intros s reg n a b c x0 y0 s1 s2 t v s3 rest HN HA [fa IHa] HB [fb IHb] HK [fk IHk] TN.
+    exists (S (S (S (fa + fb + fk)))). intros [|f] L; [lia|]. cbn [eval_block].
+    destruct f as [|f]; [lia|]. rewrite eval_S_binary, (IHa f), (IHb f) by lia. rewrite HN.
+    destruct f as [|f]; [lia|].
+    change (eval_binary (S f) s2 "then" (RIf c) (RArr [RCode x0; RCode y0]) (in_scope_f (S f)) plain_scope_f)
+      with (in_scope_f (S f) s2 (plain_scope_f s2 []) (if c then x0 else y0)).
+    rewrite (in_scope_break_pass (S f) s2 _ (if c then x0 else y0) t v s3) by (try (apply IHk; lia); exact TN). reflexivity.
 Qed.
